@@ -376,6 +376,39 @@ def run(ctx):
         if ids and ctx.mine():
             ctx.count("sessions_with_request_streams")
             check_one(ctx, sid, spec, stream, "bytes", [len(stream) // 2] if len(stream) > 2 else [], baseline, register=ids)
+    # an application that is busy for a while: per-request streams are registered for the ids in flight, the answers
+    # arrive in a burst larger than the read stream buffers while the application is not reading, then it reads on -
+    # the read stream still has to carry every line, in order (the reader has to wait, not to drop)
+    for k, (n_resp, notes_every) in enumerate([(n_, e_) for n_ in ((101, 150) if ctx.tier == "quick" else (100, 101, 150, 400))
+                                               for e_ in (10, 0)]):
+        if not ctx.mine():
+            continue
+        wires = []
+        for i in range(n_resp):
+            wires.append({"jsonrpc": "2.0", "id": i + 1, "result": {"n": i, "t": TEXTS[i % len(TEXTS)]}})
+            if notes_every and i % notes_every == 0:
+                wires.append({"jsonrpc": "2.0", "method": "notifications/message", "params": {"level": "info", "data": i}})
+        stream = b"".join((json.dumps(w, ensure_ascii=False) + "\n").encode("utf-8") for w in wires)
+        for registered in (True, False):
+            case = {"busy_application": True, "responses": n_resp, "notifications_every": notes_every,
+                    "request_streams_registered": registered}
+            steps = ([("register_stream", str(i + 1)) for i in range(n_resp)] if registered else []) + \
+                [("pause_reading",), ("feed", stream), ("settle",), ("wait", 0.5), ("resume_reading",), ("settle",)]
+            try:
+                out = run_stdio_script(steps)
+            except Exception as e:  # noqa
+                ctx.violation("reader_crashed_harness", f"busy-application session failed: {e!r}", case)
+                continue
+            ctx.count("sessions")
+            ctx.count("busy_application_sessions")
+            got = [norm_any(m) for m in out["read"]]
+            want = [norm_any(w) for w in wires]
+            if got != want:
+                mech = "message_lost" if len(got) < len(want) else ("message_invented_or_duplicated" if len(got) > len(want) else "order_or_content_changed")
+                ctx.violation(mech, f"{n_resp} answers arriving while the application is not reading"
+                              f"{' (per-request streams registered for their ids)' if registered else ''}: the read stream carried "
+                              f"{len(got)} of {len(want)} messages once reading resumed", case)
+            ctx.record(case, shape=len(got), nontrivial=True, cls="busy_application", sample={"case": case, "delivered": len(got), "written": len(wires)})
     # many notifications while nobody reads client.notifications (the best-effort side stream fills up at 100):
     # the main read stream must still carry every message
     for k, n_notes in enumerate((120, 250) if ctx.tier == "quick" else (101, 120, 250, 1000)):
